@@ -1,5 +1,7 @@
 pub mod c01;
 pub mod c02;
+pub mod c06;
+pub mod opt_common;
 pub mod c09;
 pub mod c10;
 pub mod c13;
@@ -16,6 +18,7 @@ pub fn dispatch(ctx: &mut Ctx) -> bool {
     match ctx.prop.as_str() {
         "C01" => c01::run(ctx),
         "C02" => c02::run(ctx),
+        "C06" => c06::run(ctx),
         "C09" => c09::run(ctx),
         "C10" => c10::run(ctx),
         "C13" => c13::run(ctx),
